@@ -15,7 +15,7 @@ from concurrent.futures import ThreadPoolExecutor
 from . import build
 
 VERIF = build.VERIF
-EVID = os.path.join(VERIF, "evidence")
+EVID = os.environ.get("VERIF_EVIDENCE", os.path.join(VERIF, "evidence"))  # redirected only when testing the monitors on scratch copies
 REPLAY = os.path.join(EVID, "replay")
 NCPU = len(os.sched_getaffinity(0))
 ALLCPUS = sorted(os.sched_getaffinity(0))
